@@ -136,6 +136,10 @@ def predicate(op, il, mres, tag):
     if kind == "ts":
         n = int(f[5])
         return check_ts(f[2], f[4] == "1", f[6:6 + n], parse_res(il))
+    if kind == "keep":
+        if il != "ok same=1 reparse=ok":
+            return (T + "attach_only_if_genuine", "ok same=1 reparse=ok", "a token obtained earlier changed (or no longer parses / verifies) after later requests through the same client")
+        return None
     if kind == "off":
         r = parse_res(il)
         if r["kind"] != "ok" or r["what"] != "none" or r["contacted"]:
